@@ -73,6 +73,9 @@ def adversaries(tier):
         ('unknown-version', b'GET / HTTP/9.9\r\nHost: x\r\n\r\n'),
         ('web-nonutf8-ua', b'GET /w/x HTTP/1.1\r\nUser-Agent: \xff\xfe\r\n\r\n'),
         ('rev-nonutf8-path', b'GET /r1\xff HTTP/1.1\r\nHost: x\r\n\r\n'),
+        ('neg-chunk-size', b'POST http://adv.test/ HTTP/1.1\r\nTransfer-Encoding: chunked\r\n\r\n-5\r\nabc'),
+        ('dup-content-length-shrinks', b'POST http://adv.test/ HTTP/1.1\r\nContent-Length: 5\r\nContent-Length: 0\r\n\r\nabcde'),
+        ('dup-content-length-negative', b'POST /w/x HTTP/1.1\r\nContent-Length: 3\r\nContent-Length: -1\r\n\r\nabc'),
     ]
     for n, raw in malformed:
         A.append(('malformed-' + n, 'malformed', [('send', raw), ('wait_idle',), ('close',)], okorigin, dns, {}))
@@ -119,6 +122,11 @@ def adversaries(tier):
     A.append(('rev-switch-back', 'reverse', [('send', rev), ('wait_recv', len(R_UP)), ('send', rev2), ('wait_recv', 2 * len(R_UP)),
                                              ('send', rev), ('wait_recv', 3 * len(R_UP)), ('wait_idle',), ('close',)], up2, dns2, {}))
     A.append(('rev-switch-then-abort', 'reverse', [('send', rev), ('wait_recv', len(R_UP)), ('send', rev2), ('close',)], up2, dns2, {}))
+    # ... and one whose follow-up request is routed to an upstream that refuses / times out / does not resolve
+    up1only = {('10.0.0.8', 80): lambda: HttpOrigin([[R_UP], [R_UP]])}
+    for nm, net2, dnsx in (('refused', {}, dns2), ('timeout', {('10.0.0.7', 80): 'timeout'}, dns2), ('dnsfail', {}, dns)):
+        A.append(('rev-followup-upstream-' + nm, 'reverse', [('send', rev), ('wait_recv', len(R_UP)), ('send', rev2), ('wait_idle',),
+                                                             ('close',)], up1only, dnsx, net2))
     A.append(('fwd-upstream-closes-between', 'forward', [('send', fwd), ('wait_recv', len(R_A)), ('wait_turns', 12), ('send', fwd),
                                                          ('wait_idle',), ('close',)],
               {('10.0.0.9', 80): lambda: HttpOrigin([[R_A]], then={0: 'close'})}, dns, {}))
